@@ -779,11 +779,35 @@ theorem width_body (dpr m : Int) (sc : Bool) :
         simp [h1, h2, h3, this]
   · simp [h1]
 
+/-- the same fact for OTHER shapes of the generated function (merged guards, `(m-1) - (m-1)%r`
+instead of `((m-1)/r)*r`): case analysis on the three guards, then arithmetic -/
+theorem sub_tmod_eq (a b : Int) (ha : 0 ≤ a) (hb : 0 < b) : a - Int.tmod a b = Int.tdiv a b * b := by
+  rw [Int.tdiv_eq_ediv_of_nonneg ha, Int.tmod_eq_emod_of_nonneg ha]
+  have := Int.emod_add_mul_ediv a b
+  rw [Int.mul_comm] at this
+  omega
+
+macro "width_tac" : tactic => `(tactic|
+  first
+  | exact width_body _ _ _
+  | (unfold Spec.labelWidth Sqroot.itoaLen
+     rename_i s m
+     by_cases h1 : s.showCount = true
+     · by_cases h2 : s.digitsPerRow ≤ 0
+       · simp [h1, h2]
+       · by_cases h3 : m ≤ s.digitsPerRow
+         · simp [h1, h2, h3]
+         · have e0 : Int.tdiv (m - 1) s.digitsPerRow = (m - 1) / s.digitsPerRow :=
+             Int.tdiv_eq_ediv_of_nonneg (by omega)
+           have e1 := sub_tmod_eq (m - 1) s.digitsPerRow (by omega) (by omega)
+           simp [h1, h2, h3, e1, e0]
+     · simp [h1]))
+
 theorem width_eq (v : Version) (s : PSettings) (m : Int) :
     digitCountWidthOf v s m = ((Spec.labelWidth s.digitsPerRow s.showCount m : Nat) : Int) := by
   cases v
-  · exact width_body _ _ _
-  · exact width_body _ _ _
-  · exact width_body _ _ _
+  · unfold digitCountWidthOf Gen.V1.digitCountWidth; width_tac
+  · unfold digitCountWidthOf Gen.V2.digitCountWidth; width_tac
+  · unfold digitCountWidthOf Gen.V3.digitCountWidth; width_tac
 
 end Sqroot.Proofs.Prt
